@@ -36,13 +36,16 @@ TAGS = {
     16: 'reported best model is not a top-ranked eligible candidate',
     17: 'AIC is not -2LL + 2 * number of estimated parameters',
     18: 'likelihood-ratio test does not follow its definition',
+    19: 'strictness_eval_sound fails on the implementation: guards hold but the value is not the documented one',
     1001: 'oracle table does not cover a lookup (machinery)',
+    1002: 'generated strictness expression is not well typed (machinery)',
 }
 CORR = (1, 2, 3, 4, 5, 6, 7)
 # oracle tag -> correspondence tags that must be absent for the faithful model to explain it
-ORACLE = {11: (1,), 12: (1,), 13: (1, 2), 14: (2,), 15: (1,), 16: (5, 1), 17: (3,), 18: (4,)}
+ORACLE = {11: (1,), 12: (1,), 13: (1, 2), 14: (2,), 15: (1,), 16: (5, 1), 17: (3,), 18: (4,), 19: (2,)}
 FINDING_RSE = 'C19-RSE-REBOUND'
 FINDING_GRAD = 'C19-FZG-NAN-THETA-ROWS'
+FINDING_ROUND = 'C19-NEAR-BOUND-ROUNDING'
 
 SNAMES = ['minimization_successful', 'rounding_errors', 'sigdigs', 'maxevals_exceeded', 'rse', 'rse_theta',
           'rse_omega', 'rse_sigma', 'condition_number', 'final_zero_gradient', 'final_zero_gradient_theta',
@@ -59,6 +62,57 @@ class Refused(Exception):
     """fail-closed translator met a shape it does not know"""
 
 
+_IMPL = {}
+
+
+def impl():
+    """The implementation under check.  Normally the modules of /repo/src.  For SENSITIVITY TESTING ONLY the environment
+    variable VERIF_C19_MUTANT='run=/path/run.py,results=...,lrt=...,common=...' loads scratch copies of single source
+    files under other module names and wires them together the way the originals are wired (never edits /repo)."""
+    if _IMPL:
+        return _IMPL
+    import importlib.util
+    import os
+    import sys
+    import pharmpy.modeling.lrt as lrt
+    import pharmpy.modeling.results as results
+    import pharmpy.tools.common as common
+    import pharmpy.tools.run as run
+    mods = {'run': run, 'results': results, 'lrt': lrt, 'common': common}
+    pk = {'run': 'pharmpy.tools', 'results': 'pharmpy.modeling', 'lrt': 'pharmpy.modeling', 'common': 'pharmpy.tools'}
+    mut = os.environ.get('VERIF_C19_MUTANT', '')
+    loaded = {}
+    for item in [x for x in mut.split(',') if x]:
+        k, path = item.split('=', 1)
+        name = f'{pk[k]}.c19mut_{k}'
+        spec = importlib.util.spec_from_file_location(name, path)
+        m = importlib.util.module_from_spec(spec)
+        sys.modules[name] = m
+        spec.loader.exec_module(m)
+        loaded[k] = m
+    if loaded:
+        import copy
+        # private copies of the modules that import from a mutated one
+        for k in ('run', 'common'):
+            if k not in loaded:
+                name = f'{pk[k]}.c19mut_{k}'
+                spec = importlib.util.spec_from_file_location(name, mods[k].__file__)
+                m = importlib.util.module_from_spec(spec)
+                sys.modules[name] = m
+                spec.loader.exec_module(m)
+                loaded[k] = m
+        if 'results' in loaded:
+            for a in ('calculate_aic', 'calculate_bic', 'check_parameters_near_bounds'):
+                setattr(loaded['run'], a, getattr(loaded['results'], a))
+        if 'lrt' in loaded:
+            loaded['run'].lrt_df = loaded['lrt'].degrees_of_freedom
+            loaded['run'].lrt_test = loaded['lrt'].test
+        loaded['common'].rank_models = loaded['run'].rank_models
+        mods.update(loaded)
+    _IMPL.update(mods)
+    return _IMPL
+
+
 # ------------------------------------------------------------------ translators (source -> Coq obligations)
 def _func_ast(module, name):
     src = inspect.getsource(module)
@@ -73,8 +127,7 @@ def translate_source():
     """Reads tools/run.py:is_strictness_fulfilled (allowed_args, unwanted_args), modeling/results.py
     (check_parameters_near_bounds defaults, calculate_aic's constant) and tools/run.py:rank_models (default alphas).
     Returns Coq text defining *_src tables."""
-    import pharmpy.modeling.results as mres
-    import pharmpy.tools.run as run
+    mres, run = impl()['results'], impl()['run']
     out = []
     fn = _func_ast(run, 'is_strictness_fulfilled')
     found = {}
@@ -209,6 +262,8 @@ def pool():
         'iiv_on_ruv': lambda m: set_iiv_on_ruv(m),
         'power': lambda m: set_power_on_ruv(m),
         'bounds': lambda m: set_upper_bounds(set_lower_bounds(m, {'POP_VC': 0.5}), {'POP_CL': 10, 'POP_VC': 2.5, 'IIV_CL': 1}),
+        'bounds2': lambda m: set_upper_bounds(set_lower_bounds(m, {'POP_VC': 0.123, 'POP_CL': 0.00125}),
+                                              {'POP_CL': 0.0257, 'POP_VC': 125.5, 'IIV_VC': 0.5, 'SIGMA': 2, 'COVAPGR': 1.005}),
     }
     with warnings.catch_warnings():
         warnings.simplefilter('ignore')
@@ -217,14 +272,35 @@ def pool():
     return _POOL
 
 
+NAMES = ct.Names()
+_PRELUDE = []
+
+
+def prelude():
+    """Shared definitions of every cases_k.v: parameter tables and criteria observations of the pool models (exported once,
+    referenced by name from the cases), with one global name <-> positive bijection."""
+    if _PRELUDE:
+        return _PRELUDE[0]
+    P = pool()
+    for n in sorted({p.name for m in P.values() for p in m.parameters}):
+        NAMES.get(n)
+    for n in ['m%d' % i for i in range(12)] + ['ghost', 'nobody']:
+        NAMES.get(n)
+    out = []
+    for key, m in P.items():
+        out.append(f'Definition ps_{key} : list param := {params_term(m, NAMES)}.')
+        out.append(f'Definition ic_{key} : icobs := {ic_term(key)}.')
+    _PRELUDE.append('\n'.join(out) + '\n')
+    return _PRELUDE[0]
+
+
 _CAT = {}
 
 
 def categorize(key):
     """(|fixedpars|, |randpars|) of _categorize_parameters — engine part of the 'mixed' BIC (symbolic expansion)."""
     if key not in _CAT:
-        from pharmpy.modeling.results import _categorize_parameters
-        tf, tr = _categorize_parameters(pool()[key])
+        tf, tr = impl()['results']._categorize_parameters(pool()[key])
         _CAT[key] = (len(tf), len(tr))
     return _CAT[key]
 
@@ -236,7 +312,7 @@ def ic_term(key):
     """calculate_aic / calculate_bic (all four types) of a pool model at a fixed dyadic likelihood; cached because the
     'mixed' type costs 0.1 s (symbolic expansion)"""
     if key not in _IC:
-        from pharmpy.modeling import calculate_aic, calculate_bic
+        calculate_aic, calculate_bic = impl()['results'].calculate_aic, impl()['results'].calculate_bic
         m = pool()[key]
         like = [0.0, -12.25, 586.25, 3.875][sum(map(ord, key)) % 4]
         _IC[key] = (f"(mkIc {ct.q(F(like))} {ct.q(qf(calculate_aic(m, like)))} "
@@ -245,8 +321,8 @@ def ic_term(key):
 
 
 # ------------------------------------------------------------------ strictness grammar
-NUMS = ['0', '0.05', '0.1', '0.3', '0.5', '1', '2', '3', '3.5', '10', '.25', '1000', '1.']
-OPS = ['<', '<=', '==', '!=', '>=', '>']
+NUMS = ['0', '0.0625', '0.125', '0.25', '0.5', '1', '3', '3.5', '4', '.375', '1000', '1.', '0.1']
+OPS = ['<', '<=', '<=', '==', '!=', '>=', '>=', '>']
 
 
 def gen_strict_tree(rng, depth, names_b, names_n):
@@ -340,6 +416,7 @@ def strict_term(s):
 
 DEFAULT_STRICT = ['minimization_successful', 'minimization_successful or (rounding_errors and sigdigs >= 0.1)',
                   'minimization_successful or (rounding_errors and sigdigs>=0)', 'minimization_successful and rse < 0.4',
+                  'minimization_successful and rse <= 0.25',
                   'minimization_successful or rounding_errors', '']
 BAD_STRICT = ['minimization_successful & rounding_errors', 'minimization_successful and foo', 'rse < 1e3',
               'sigdigs > -1', 'minimization_successful | rounding_errors', 'true', 'rse_theta + 1 < 3',
@@ -347,13 +424,14 @@ BAD_STRICT = ['minimization_successful & rounding_errors', 'minimization_success
 
 
 # ------------------------------------------------------------------ spec generator
-OFVS = ['-40', '-37.5', '-36', '-35.5', '-30', '-12.25', '-3.84', '-4', '-1', '0', '0.5', '1', '3', '3.875', '7.5', '10',
+OFVS = ['-40', '-37.5', '-36', '-35.5', '-30', '-12.25', '-3.875', '-4', '-1', '0', '0.5', '1', '3', '3.875', '7.5', '10',
         '100.125', '586.25', '1048576.5']
 DYAD = ['0', '0.5', '1', '2', '3.75', '4', '10', '100', '-1', '-0.5']
 ALPHAS = ['0.05', '0.01', '0.001', '0.5', '0.1']
-RSEV = ['0.05', '0.1', '0.3', '0.5', '1.0', '0.25', 'nan']
-GRADV = ['0', '0.0', '1.5', '-2', '0.001', 'nan', '3', '-0.25']
-SIGD = ['nan', '0', '0.05', '0.1', '1', '3', '3.5', '5']
+RSEV = ['0.0625', '0.125', '0.25', '0.5', '1.0', '0.375', 'nan']
+CONDV = ['0.25', '1', '4', '0.0625', '16', '250']
+GRADV = ['0', '0.0', '1.5', '-2', '0.0009765625', 'nan', '3', '-0.25']
+SIGD = ['nan', '0', '0.0625', '0.125', '0.1', '0.1', '1', '3', '3.5', '4']
 
 
 def gen_res(rng, model, ofv_support, profile):
@@ -365,20 +443,27 @@ def gen_res(rng, model, ofv_support, profile):
     r['sigdigs'] = rng.choice(SIGD)
     r['warnings'] = [w for w in ('final_zero_gradient', 'estimate_near_boundary', 'something_else') if rng.random() < 0.25]
     miss = 0.5 if profile == 'missing' else 0.04
-    r['rse'] = None if rng.random() < miss else [rng.choice(RSEV[:-1] if rng.random() < 0.8 else RSEV) for _ in range(npar)]
+    if rng.random() < miss:
+        r['rse'] = None
+    else:
+        rvs = model.random_variables
+        grp = lambda n: 2 if n in rvs.epsilons.parameter_names else 1 if n in rvs.etas.parameter_names else 0
+        lim = [rng.choice(RSEV[:-1]) for _ in range(3)]       # group-wise upper limits -> group criteria differ
+        r['rse'] = [('nan' if rng.random() < 0.04 else
+                     rng.choice([v for v in RSEV[:-1] if float(v) <= float(lim[grp(p.name)])])) for p in model.parameters]
     if rng.random() < miss:
         r['grad'] = None
     else:
         style = rng.random()
         pool_ = GRADV if style < 0.5 else [g for g in GRADV if g != 'nan'] if style < 0.8 else ['1.5', '-2', '3']
         r['grad'] = [rng.choice(pool_) for _ in range(npar)]
-    r['cov'] = None if rng.random() < miss else [rng.choice(['0.25', '1', '4', '0.0625', '16']) for _ in range(npar)]
+    r['cov'] = None if rng.random() < miss else [rng.choice(CONDV) for _ in range(npar)]
     if rng.random() < miss:
         r['est'] = None
     else:
         est = []
         for p in model.parameters:
-            cands = [repr(float(p.init))]
+            cands = ['0.75']        # far from every bound of the pool models
             for b in (float(p.lower), float(p.upper)):
                 if math.isinf(b):
                     continue
@@ -386,7 +471,7 @@ def gen_res(rng, model, ofv_support, profile):
                     cands += ['0.0005', '0.001', '0.002', '-0.0009', '0.0009999', '0']
                 else:
                     cands += [repr(float(x)) for x in (b, b * 1.004, b * 0.996, b * 1.006, b * 0.994, b * 1.2)]
-            est.append(rng.choice(cands) if rng.random() < 0.5 else cands[0])
+            est.append(rng.choice(cands) if rng.random() < (0.6 if len(cands) > 7 else 0.3) else cands[0])
         r['est'] = est
     return r
 
@@ -395,45 +480,80 @@ def gen_spec(rng, stream='valid'):
     P = pool()
     keys = list(P)
     n = rng.choice([0, 1, 2, 3, 3, 4, 4, 5, 6, 7, 8])
-    profile = rng.choice(['full', 'full', 'full', 'missing'])
+    profile = rng.choice(['full'] * 6 + ['missing'])
     base_key = 'base' if rng.random() < 0.6 else rng.choice(keys)
     mkeys = [base_key] + [rng.choice(keys) for _ in range(n)]
     labels = ['m%d' % i for i in range(n + 1)]
     rng.shuffle(labels)
-    ofv_support = rng.sample(OFVS, rng.choice([1, 2, 3, 4, 6]))
+    ofv_support = rng.sample(OFVS, rng.choice([1, 2, 2, 3, 3, 4, 6]))
     models = [{'pool': k, 'name': lab, 'res': gen_res(rng, P[k], ofv_support, profile)} for k, lab in zip(mkeys, labels)]
     if rng.random() < 0.15 and n >= 1:       # same structural model twice -> exact ties for aic/bic as well
         models[-1]['pool'] = models[rng.randrange(len(models) - 1)]['pool']
         models[-1]['res'] = gen_res(rng, P[models[-1]['pool']], ofv_support, profile)
-    if rng.random() < 0.15:
-        models[0]['res']['ofv'] = 'nan'
-    if rng.random() < 0.1:
-        models[0]['res']['minsucc'] = False
+    # the base model: mostly a successful run (otherwise the reference value is NaN most of the time)
+    b = models[0]['res']
+    if rng.random() < 0.8:
+        b.update(ofv=rng.choice(ofv_support), minsucc=True, term=None, sigdigs=rng.choice(['3', '3.5', '5']), warnings=[])
+        if b['rse'] is not None:
+            b['rse'] = [rng.choice(['0.0625', '0.125', '0.25']) for _ in b['rse']]
+        if b['grad'] is not None:
+            b['grad'] = [rng.choice(['1.5', '-2', '3']) for _ in b['grad']]
+    elif rng.random() < 0.4:
+        b['ofv'] = 'nan'
+    for m in models[1:]:                      # candidates: more successful runs than failures
+        if rng.random() < 0.4:
+            m['res'].update(minsucc=True, term=None)
     rt = rng.choice(['ofv', 'ofv', 'aic', 'bic', 'bic', 'lrt', 'lrt'])
+    if rt == 'lrt' and rng.random() < 0.7:
+        grid = [repr(k / 4) for k in range(-64, 33)]
+        for m in models:
+            if m['res']['ofv'] != 'nan':
+                m['res']['ofv'] = rng.choice(grid)
+        if rng.random() < 0.7 and models[0]['res']['ofv'] != 'nan':
+            models[0]['res']['ofv'] = '0'
     spec = {'models': models, 'rank_type': rt, 'bic_type': rng.choice(['mixed', 'fixed', 'random', 'iiv']),
             'cutoff': None, 'penalties': None, 'parent': None, 'strict_invalid': False}
     if rt == 'lrt':
         k = rng.random()
-        if k < 0.4:
+        if k < 0.3:
             spec['cutoff'] = rng.choice(ALPHAS)
-        elif k < 0.6:
-            spec['cutoff'] = [rng.choice(ALPHAS), rng.choice(ALPHAS)]
+        elif k < 0.65:
+            spec['cutoff'] = rng.sample(ALPHAS, 2)
         if rng.random() < 0.5 and n >= 1:
             spec['parent'] = {m['name']: rng.choice(models)['name'] for m in models[1:]}
+        # objective values placed next to the chi-square cut-offs of the alphas in play (boundary cases of the test)
+        from scipy import stats
+        co = spec['cutoff']
+        alphas = [co] if isinstance(co, str) else list(co) if co else ['0.05', '0.01']
+        byname = {m['name']: m for m in models}
+        for m in models[1:]:
+            par = byname[(spec['parent'] or {}).get(m['name'], models[0]['name'])]
+            if rng.random() < 0.6 and par['res']['ofv'] != 'nan' and m['res']['ofv'] != 'nan' and par is not m:
+                df = len(P[m['pool']].parameters) - len(P[par['pool']].parameters)
+                if df != 0:
+                    c = float(stats.chi2.isf(q=float(rng.choice(alphas)), df=abs(df)))
+                    dofv = (round(c * 4) + rng.choice([-1, 0, 1])) / 4 * (1 if df > 0 else -1)
+                    m['res']['ofv'] = repr(float(par['res']['ofv']) - dofv)
+                    m['res'].update(minsucc=True, term=None)
     else:
         if rng.random() < 0.5:
             spec['cutoff'] = rng.choice(DYAD)
+            vals = [float(m['res']['ofv']) for m in models if m['res']['ofv'] != 'nan']
+            if rng.random() < 0.5 and len(vals) >= 2 and models[0]['res']['ofv'] != 'nan':
+                # a cut-off exactly at an occurring difference (dyadic): the boundary case of `<=`
+                spec['cutoff'] = repr(vals[0] - rng.choice(vals[1:]) + rng.choice([0, 0, 0, 2, -2, 4]))
         if rng.random() < 0.15 and n >= 1:
             spec['parent'] = {m['name']: rng.choice(models)['name'] for m in models[1:]}
     if rng.random() < 0.4:
         spec['penalties'] = [rng.choice(DYAD) for _ in range(n + 1)]
     k = rng.random()
-    if k < 0.3:
+    if k < 0.45:
         spec['strictness'] = rng.choice(DEFAULT_STRICT)
     else:
         nb = BOOLEAN if rng.random() < 0.7 else ['minimization_successful', 'rounding_errors', 'maxevals_exceeded']
         nn = sorted(NUMERIC) if rng.random() < 0.7 else ['sigdigs', 'rse']
         spec['strictness'] = render(rng, gen_strict_tree(rng, rng.choice([1, 2, 2, 3]), nb, nn))
+    spec['xstrict'] = [render(rng, gen_strict_tree(rng, rng.choice([0, 0, 1, 2]), BOOLEAN, sorted(NUMERIC))) for _ in range(8)]
     spec['lrt_pairs'] = [[rng.randrange(n + 1), rng.randrange(n + 1), rng.choice(ALPHAS)] for _ in range(3)]
     spec['bom'] = [[rng.randrange(n + 1), [rng.randrange(n + 1) for _ in range(rng.choice([0, 1, 2, 3, 4]))],
                     rng.choice(ALPHAS)] for _ in range(2)]
@@ -510,10 +630,7 @@ def series_term(ser, names):
     return ct.lst([ct.pair(names.p(k), oq(v)) for k, v in ser.items()])
 
 
-def cand_term(model, res, key, names):
-    """export of the REAL objects: Model (parameters, random-variable structure, dataset sizes) + ModelfitResults"""
-    import numpy as np
-    from pharmpy.modeling import get_ids, get_observations
+def params_term(model, names):
     rvs = model.random_variables
     iiv, etas, eps = set(rvs.iiv.parameter_names), set(rvs.etas.parameter_names), set(rvs.epsilons.parameter_names)
     ps = []
@@ -522,6 +639,13 @@ def cand_term(model, res, key, names):
         lo = 'None' if math.isinf(p.lower) else f'(Some {ct.q(F(float(p.lower)))})'
         up = 'None' if math.isinf(p.upper) else f'(Some {ct.q(F(float(p.upper)))})'
         ps.append(f'(mkParam {names.p(p.name)} {kind} {ct.boolean(bool(p.fix))} {lo} {up})')
+    return ct.lst(ps)
+
+
+def cand_term(model, res, key, names):
+    """export of the REAL objects: Model (parameters, random-variable structure, dataset sizes) + ModelfitResults"""
+    import numpy as np
+    from pharmpy.modeling import get_ids, get_observations
     nf, nr = categorize(key)
     tc = res.termination_cause
     term = {None: 'TNone', 'rounding_errors': 'TRounding', 'maxevals_exceeded': 'TMaxevals'}.get(tc, 'TOther')
@@ -532,7 +656,7 @@ def cand_term(model, res, key, names):
           f"{'None' if rse is None else '(Some ' + series_term(rse, names) + ')'} "
           f"{'None' if grd is None else '(Some ' + series_term(grd, names) + ')'} {cond} "
           f"{'None' if est is None else '(Some ' + ct.lst([ct.pair(names.p(k), ct.q(qf(v))) for k, v in est.items()]) + ')'})")
-    return (f"(mkCand {names.p(model.name)} {oq(res.ofv)} {ct.lst(ps)} {ct.nat(nf)} {ct.nat(nr)} "
+    return (f"(mkCand {names.p(model.name)} {oq(res.ofv)} ps_{key} {ct.nat(nf)} {ct.nat(nr)} "
             f"{ct.pos(len(get_ids(model)))} {ct.pos(len(get_observations(model)))}\n    {rr})")
 
 
@@ -549,14 +673,14 @@ def df_rows(df, names, rt):
 def observe(spec):
     """Run the implementation on a spec; returns (coq case term, info)."""
     import numpy as np
-    from pharmpy.modeling import calculate_aic, calculate_bic
-    from pharmpy.modeling import lrt
-    from pharmpy.tools.common import ToolResults, create_results
-    from pharmpy.tools.run import is_strictness_fulfilled, rank_models
+    lrt = impl()['lrt']
+    ToolResults, create_results = impl()['common'].ToolResults, impl()['common'].create_results
+    is_strictness_fulfilled, rank_models = impl()['run'].is_strictness_fulfilled, impl()['run'].rank_models
     from pharmpy.workflows import ModelEntry
     from scipy import stats
     P = pool()
-    names = ct.Names()
+    prelude()
+    names = NAMES
     info = {'n': len(spec['models']) - 1, 'rt': spec['rank_type']}
     ms, rs = [], []
     for m in spec['models']:
@@ -605,7 +729,17 @@ def observe(spec):
             except Exception as e:
                 stricts.append(f'(Err {errclass(e)})')
         info['strict'] = stricts
-        ics = [ic_term(s_['pool']) for s_ in spec['models']]
+        xs = []
+        for xsx in spec.get('xstrict', []):
+            obs = []
+            for m, r in zip(ms, rs):
+                try:
+                    obs.append(f'(Ok {ct.boolean(bool(is_strictness_fulfilled(m, r, xsx)))})')
+                except Exception as e:
+                    obs.append(f'(Err {errclass(e)})')
+            xs.append(f'({strict_term(xsx)}, {ct.lst(obs)})')
+        info['nx'] = len(xs) * len(ms)
+        ics = ['ic_' + s_['pool'] for s_ in spec['models']]
         kwargs = {}
         if rt == 'bic' and bt is not None:
             kwargs['bic_type'] = bt
@@ -674,9 +808,210 @@ def observe(spec):
     isf = ct.lst([f'({ct.q(F(a))}, {ct.pos(d)}, {oq(float(stats.chi2.isf(q=a, df=d)))})' for a in sorted(alphas) for d in dfs])
     term = ('(mkCase ' + cands[0] + '\n  ' + ct.lst(cands[1:]) + '\n  ' + cf + '\n  ' + logs + '\n  ' + isf + '\n  '
             + ct.lst(sf_tab) + '\n  ' + ct.lst(stricts) + '\n  ' + ct.lst(ics) + '\n  ' + rank_term + '\n  ' + tool_term
-            + '\n  ' + ct.lst(lrts) + '\n  ' + ct.lst(boms) + ')')
-    info['nsub'] = len(stricts) + len(ics) * 5 + 1 + (0 if tool_term == 'None' else 1) + len(lrts) * 5 + len(boms)
+            + '\n  ' + ct.lst(lrts) + '\n  ' + ct.lst(boms) + '\n  ' + ct.lst(xs) + ')')
+    info['nsub'] = info['nx'] + len(stricts) + len(ics) * 5 + 1 + (0 if tool_term == 'None' else 1) + len(lrts) * 5 + len(boms)
     return term, info
+
+
+# ------------------------------------------------------------------ calculate_bic_penalty (list search spaces)
+SSOPT = {'iiv_diag': 'SS_iiv_diag', 'iiv_block': 'SS_iiv_block', 'iov': 'SS_iov'}
+E_VALUES = [None] + ['1', '1', '2', '2', '0.5', '0.5', '4', '0.25', '8', '1', '2'] * 2 + ['0']
+
+
+def gen_pen_spec(rng):
+    keys = list(pool())
+    ss = rng.choice([['iiv_diag'], ['iiv_block'], ['iov'], ['iiv_diag', 'iiv_block'], ['iiv_diag', 'iov'], ['iov', 'iiv_diag']] * 3
+                    + [['iiv_block', 'iov'], [], ['iiv_diag', 'iiv_diag'], ['iiv_diag', 'covariates'], ['IIV_DIAG']])
+    rich = ['iiv_periph', 'joint', 'iov', 'iiv_on_ruv', 'base', 'fix_iivcl', 'rmiiv_cl', 'rmiiv_all', 'fix0_iivvc']
+    return {'base': None if rng.random() < 0.05 else rng.choice(rich if rng.random() < 0.7 else keys),
+            'cand': rng.choice(rich if rng.random() < 0.7 else keys), 'ss': ss,
+            'keep': rng.choice([None, None, None, None, None, [], ['ETA_CL'], ['ETA_CL', 'ETA_VC']]),
+            'E_p': rng.choice(E_VALUES), 'E_q': rng.choice(E_VALUES)}
+
+
+def rv_term(model, names):
+    ds = []
+    for d in model.random_variables.etas:
+        from pharmpy.model import NormalDistribution
+        var = [d.variance] if isinstance(d, NormalDistribution) else list(d.variance.diagonal())
+        vnames = [str(v) for v in var]
+        others = [p for p in d.parameter_names if p not in vnames]
+        ds.append(f"(mkDist {'LIIV' if d.level.upper() == 'IIV' else 'LIOV'} {ct.lst([names.p(v) for v in vnames])} "
+                  f"{ct.lst([names.p(v) for v in others])})")
+    return f"(mkRv {ct.lst(ds)} {ct.lst([names.p(n) for n in model.parameters.fixed.names])})"
+
+
+def observe_pen(spec):
+    run = impl()['run']
+    P = pool()
+    prelude()
+    names = NAMES
+    base = None if spec['base'] is None else P[spec['base']]
+    cand = P[spec['cand']]
+    Ep = None if spec['E_p'] is None else float(spec['E_p'])
+    Eq = None if spec['E_q'] is None else float(spec['E_q'])
+    with warnings.catch_warnings():
+        warnings.simplefilter('ignore')
+        try:
+            v = run.calculate_bic_penalty(cand, list(spec['ss']), base_model=base, E_p=Ep, E_q=Eq, keep=spec['keep'])
+            obs = f'(Ok {ct.q(qf(v))})'
+        except Exception as e:
+            obs = f'(Err {errclass(e)})'
+        counts = 'None'
+        if base is not None and all(o in SSOPT for o in spec['ss']):
+            c = run.get_penalty_parameters_rvs(base, cand, list(spec['ss']), spec['keep'])
+            counts = '(Some (' + ', '.join(ct.z(int(x)) for x in c) + '))'
+    xs = set()
+    for E in (Ep if Ep is not None else 1.0, Eq if Eq is not None else 1.0):
+        if E != 0:
+            xs |= {F(n) / F(E) for n in ([1] + ([int(x) for x in c] if counts != 'None' else []))}
+    logs = [f'({ct.q(x)}, ' + ('None' if x <= 0 else f'(Some {ct.q(F(math.log(float(x))))})') + ')' for x in sorted(xs)]
+    oqs = lambda e: 'None' if e is None else f'(Some {ct.q(F(e))})'
+    return (f"(mkPcase {'None' if base is None else '(Some ' + rv_term(base, names) + ')'} {rv_term(cand, names)} "
+            f"{ct.lst([SSOPT.get(o, 'SS_other') for o in spec['ss']])} {ct.nat(len(spec['keep'] or []))} {oqs(Ep)} {oqs(Eq)}\n  "
+            f"{ct.lst(logs)} {counts} {obs})"), obs
+
+
+def penalty_batch(ctx, n):
+    specs = [gen_pen_spec(ctx.rng) for _ in range(n)]
+    terms, obs = [], []
+    for sp in specs:
+        t, o = observe_pen(sp)
+        terms.append(t)
+        obs.append(o)
+    verdicts = ctx.run_cases('penalty', 'C19.Model C19.Penalty', 'pcase', terms, 'pverdict', shard=100)
+    bad = [(sp, v) for sp, v in zip(specs, verdicts) if v]
+    for sp, v in bad[:3]:
+        ctx.broken.append('correspondence C19 calculate_bic_penalty model vs implementation on ' + json.dumps(sp))
+    ctx.coverage['penalty_cases'] = {'cases': len(specs), 'values': sum(1 for o in obs if o.startswith('(Ok')),
+                                     'nonzero': sum(1 for o in obs if o.startswith('(Ok') and '(0#1)' not in o),
+                                     'errors': sum(1 for o in obs if o.startswith('(Err')), 'disagreements': len(bad)}
+    ctx.coverage['evaluations'] += len(specs)
+    ctx.log('calculate_bic_penalty cases done', ctx.coverage['penalty_cases'])
+
+
+# ------------------------------------------------------------------ summarize_modelfit_results_from_entries
+def gen_sum_spec(rng):
+    keys = ['base', 'periph', 'rmiiv_cl', 'comb', 'joint']
+    P = pool()
+    entries = []
+    dv = lambda: rng.choice(['nan'] + [repr(k / 8) for k in range(-80, 81, 7)])
+    for j in range(rng.choice([1, 1, 2, 3, 4])):
+        if rng.random() < 0.08:
+            entries.append(None)
+            continue
+        key = rng.choice(keys)
+        npar = len(P[key].parameters)
+        if rng.random() < 0.1:
+            entries.append({'pool': key, 'name': 'm%d' % j, 'res': None})
+            continue
+        k = rng.choice([1, 1, 2, 3])
+        steps = sorted(rng.sample([1, 2, 3, 4], k)) if rng.random() < 0.1 else list(range(1, k + 1))
+        its = {st: rng.choice([1, 2, 3]) for st in steps}
+        r = {'minsucc': rng.choice([True, True, False, None]), 'ofv': dv(), 'pe': [dv() for _ in range(npar)],
+             'ofv_iter': None if rng.random() < 0.3 else [[st, it, dv()] for st in steps for it in range(its[st])],
+             'pe_iter': None if rng.random() < 0.3 else [[st, it, [dv() for _ in range(npar)]] for st in steps for it in range(its[st])],
+             'se': None if rng.random() < 0.3 else [dv() for _ in range(npar)],
+             'rse': None if rng.random() < 0.3 else [dv() for _ in range(npar)],
+             'minsucc_iter': [rng.random() < 0.6 for _ in range(k)], 'evaluation': [rng.random() < 0.3 for _ in range(k)],
+             'nerr': rng.choice([0, 0, 1, 2]), 'nwarn': rng.choice([0, 1, 3])}
+        if rng.random() < 0.75 and (r['ofv_iter'] is None) != (r['pe_iter'] is None):      # usually both tables or none
+            r['ofv_iter'] = r['pe_iter'] = None
+        if r['pe_iter'] is not None and rng.random() < 0.07:
+            r['pe_iter'] = [x for x in r['pe_iter'] if x[0] != steps[-1]] or r['pe_iter']     # a step missing -> KeyError
+        entries.append({'pool': key, 'name': 'm%d' % j, 'res': r})
+    return {'all_steps': rng.random() < 0.4, 'entries': entries}
+
+
+def observe_sum(spec):
+    import pandas as pd
+    from pharmpy.workflows import ModelEntry, ModelfitResults
+    from pharmpy.workflows.log import Log
+    run = impl()['run']
+    P = pool()
+    prelude()
+    names = NAMES
+    mes, terms = [], []
+    olist = lambda vals, pn: ct.lst([ct.pair(names.p(n), oq(fl(v))) for n, v in zip(pn, vals)])
+    for e in spec['entries']:
+        if e is None:
+            mes.append(None)
+            terms.append('None')
+            continue
+        model = P[e['pool']].replace(name=e['name'])
+        pn = model.parameters.names
+        r = e['res']
+        if r is None:
+            mes.append(ModelEntry.create(model=model, modelfit_results=None))
+            terms.append(f'(Some ({names.p(e["name"])}, None))')
+            continue
+        log = Log()
+        for i in range(r['nerr']):
+            log = log.log_error(f'e{i}')
+        for i in range(r['nwarn']):
+            log = log.log_warning(f'w{i}')
+        k = len(r['evaluation'])
+        kw = dict(ofv=fl(r['ofv']), minimization_successful=r['minsucc'], parameter_estimates=pd.Series([fl(v) for v in r['pe']], index=pn),
+                  minimization_successful_iterations=pd.Series(r['minsucc_iter'], index=range(1, k + 1), dtype=bool),
+                  evaluation=pd.Series(r['evaluation'], index=range(1, k + 1), dtype=bool), log=log, runtime_total=1.0, warnings=[])
+        if r['ofv_iter'] is not None:
+            kw['ofv_iterations'] = pd.Series([fl(v) for _, _, v in r['ofv_iter']], name='OFV', index=pd.MultiIndex.from_tuples(
+                [(st, it) for st, it, _ in r['ofv_iter']], names=['steps', 'iteration']))
+        if r['pe_iter'] is not None:
+            kw['parameter_estimates_iterations'] = pd.DataFrame([[fl(v) for v in row] for _, _, row in r['pe_iter']], columns=pn,
+                index=pd.MultiIndex.from_tuples([(st, it) for st, it, _ in r['pe_iter']], names=['step', 'iteration']))
+        if r['se'] is not None:
+            kw['standard_errors'] = pd.Series([fl(v) for v in r['se']], index=pn)
+        if r['rse'] is not None:
+            kw['relative_standard_errors'] = pd.Series([fl(v) for v in r['rse']], index=pn)
+        mes.append(ModelEntry.create(model=model, modelfit_results=ModelfitResults(**kw)))
+        oi = 'None' if r['ofv_iter'] is None else '(Some ' + ct.lst([ct.pair(ct.nat(st), oq(fl(v))) for st, _, v in r['ofv_iter']]) + ')'
+        pi = 'None' if r['pe_iter'] is None else '(Some ' + ct.lst([ct.pair(ct.nat(st), olist(row, pn)) for st, _, row in r['pe_iter']]) + ')'
+        ms = 'None' if r['minsucc'] is None else f'(Some {ct.boolean(r["minsucc"])})'
+        terms.append(f"(Some ({names.p(e['name'])}, Some (mkSres {ms} {oq(fl(r['ofv']))} {oi} {olist(r['pe'], pn)} {pi} "
+                     f"{'None' if r['se'] is None else '(Some ' + olist(r['se'], pn) + ')'} "
+                     f"{'None' if r['rse'] is None else '(Some ' + olist(r['rse'], pn) + ')'} "
+                     f"{ct.lst([ct.boolean(b) for b in r['minsucc_iter']])} {ct.lst([ct.boolean(b) for b in r['evaluation']])} "
+                     f"{ct.nat(r['nerr'])} {ct.nat(r['nwarn'])})))")
+    with warnings.catch_warnings():
+        warnings.simplefilter('ignore')
+        try:
+            df = run.summarize_modelfit_results_from_entries(mes, include_all_execution_steps=spec['all_steps'])
+            rows = []
+            byname = {e['name']: P[e['pool']].parameters.names for e in spec['entries'] if e is not None}
+            for idx, row in df.iterrows():
+                name, step = (idx if isinstance(idx, tuple) else (idx, None))
+                cols = []
+                for n in byname[name]:
+                    g = lambda c: oq(row[c]) if c in df.columns else 'None'
+                    cols.append(f"({names.p(n)}, {g(n + '_estimate')}, {g(n + '_SE')}, {g(n + '_RSE')})")
+                ev = 'None' if step is None else f"(Some {ct.boolean(row['run_type'] == 'evaluation')})"
+                rows.append(f"(mkSrow {names.p(name)} {'None' if step is None else '(Some ' + ct.nat(int(step)) + ')'} {ev} "
+                            f"{ct.boolean(bool(row['minimization_successful']))} {ct.nat(int(row['errors_found']))} "
+                            f"{ct.nat(int(row['warnings_found']))} {oq(row['ofv'])} {ct.lst(cols)})")
+            obs = '(Ok ' + ct.lst(rows) + ')'
+        except Exception as e:
+            obs = f'(Err {errclass(e)})'
+    return f"(mkScase {ct.boolean(spec['all_steps'])} {ct.lst(terms)}\n  {obs})", obs
+
+
+def summary_batch(ctx, n):
+    specs = [gen_sum_spec(ctx.rng) for _ in range(n)]
+    terms, obs = [], []
+    for sp in specs:
+        t, o = observe_sum(sp)
+        terms.append(t)
+        obs.append(o)
+    verdicts = ctx.run_cases('summary', 'C19.Model C19.Summary', 'scase', terms, 'sverdict', shard=100)
+    bad = [(sp, v) for sp, v in zip(specs, verdicts) if v]
+    for sp, v in bad[:3]:
+        ctx.broken.append('correspondence C19 summarize_modelfit_results model vs implementation on ' + json.dumps(sp)[:800])
+    ctx.coverage['summary_cases'] = {'cases': len(specs), 'tables': sum(1 for o in obs if o.startswith('(Ok')),
+                                     'errors': sum(1 for o in obs if o.startswith('(Err')),
+                                     'all_steps': sum(1 for sp in specs if sp['all_steps']), 'disagreements': len(bad)}
+    ctx.coverage['evaluations'] += len(specs)
+    ctx.log('summarize_modelfit_results cases done', ctx.coverage['summary_cases'])
+    return bad
 
 
 # ------------------------------------------------------------------ classification
@@ -694,6 +1029,8 @@ def classify(ctx, spec, tags, info):
                 fid = FINDING_RSE
             elif 202 in tags and ctx.open_finding(FINDING_GRAD):
                 fid = FINDING_GRAD
+            elif 204 in tags and ctx.open_finding(FINDING_ROUND):
+                fid = FINDING_ROUND
         if explained and fid:
             ctx.coverage.setdefault('known_hits', {}).setdefault(fid, 0)
             ctx.coverage['known_hits'][fid] += 1
@@ -702,8 +1039,8 @@ def classify(ctx, spec, tags, info):
         else:
             ctx.violation(TAGS[t], {'spec': spec, 'tags': sorted(tags), 'tag_meaning': TAGS[t]})
             status = 'violation'
-    if 1001 in tags and status != 'violation':
-        ctx.broken.append('C19 oracle table miss on ' + json.dumps(spec)[:300])
+    if (1001 in tags or 1002 in tags) and status != 'violation':
+        ctx.broken.append('C19 machinery tag (oracle table miss / ill-typed expression) on ' + json.dumps(spec)[:300])
         status = 'broken'
     if corr and status != 'violation':
         ctx.broken.append('correspondence C19 model vs implementation: ' + ', '.join(TAGS[t] for t in corr)
@@ -713,20 +1050,37 @@ def classify(ctx, spec, tags, info):
     return status
 
 
+def _observe_safe(spec):
+    try:
+        return observe(spec)
+    except Refused:
+        return None
+
+
 def run_specs(ctx, specs, label, quiet=False):
+    from harness.lib.core import JOBS
     terms, kept, infos = [], [], []
     refused = 0
-    for spec in specs:
-        try:
-            term, info = observe(spec)
-        except Refused:
+    if len(specs) > 40 and JOBS > 1:
+        # the implementation runs are independent: fork workers after the model pool is built (inherited)
+        import multiprocessing as mp
+        prelude()
+        impl()
+        with mp.get_context('fork').Pool(min(JOBS, 8)) as pl:
+            results = pl.map(_observe_safe, specs, chunksize=8)
+    else:
+        results = [_observe_safe(s) for s in specs]
+    for spec, r in zip(specs, results):
+        if r is None:
             refused += 1
             continue
-        terms.append(term)
+        terms.append(r[0])
         kept.append(spec)
-        infos.append(info)
+        infos.append(r[1])
     ctx.coverage['skipped_unconvertible'] = ctx.coverage.get('skipped_unconvertible', 0) + refused
-    verdicts = ctx.run_cases(label, IMPORTS, 'case', terms, 'verdict', shard=40)
+    if len(specs) > 40:
+        ctx.log(f'{len(terms)} implementation runs exported')
+    verdicts = ctx.run_cases(label, IMPORTS, 'case', terms, 'verdict', shard=40, prelude=prelude())
     stats = {'ok': 0, 'known': 0, 'violation': 0, 'broken': 0}
     if not quiet:
         for spec, tags, info in zip(kept, verdicts, infos):
@@ -740,7 +1094,7 @@ def finding_probes(ctx):
             continue
         kept, verdicts, _, _ = run_specs(ctx, [f['witness']], 'finding-' + f['id'], quiet=True)
         tags = set(verdicts[0]) if verdicts else set()
-        guard_tag = {FINDING_RSE: 201, FINDING_GRAD: 202}.get(f['id'])
+        guard_tag = {FINDING_RSE: 201, FINDING_GRAD: 202, FINDING_ROUND: 204}.get(f['id'])
         if f['expect_tag'] in tags and guard_tag in tags and not any(c in tags for c in ORACLE[f['expect_tag']]):
             ctx.known(f['id'])
         else:
@@ -749,7 +1103,9 @@ def finding_probes(ctx):
 
 def run(ctx):
     ok = ctx.build_gate(['C19'])
+    ctx.log('build gate done')
     regenerated_obligations(ctx)
+    ctx.log('regenerated obligations done')
     ctx.trusted += [
         'harness/props/c19.py: generator, export of real Model / ModelfitResults / DataFrame objects to Gallina terms '
         '(floats as exact rationals, NaN as None), strictness string -> AST through Python\'s own ast.parse, classification',
@@ -767,21 +1123,36 @@ def run(ctx):
         '(not stable on this machine): the model produces the stable order, tables are compared modulo the order inside tie groups',
         '_categorize_parameters (symbolic expansion, mixed BIC) is an engine: its two counts are inputs of the model',
         'model names of a candidate set are pairwise distinct (the result table is indexed by name)',
-        'not covered: summarize_modelfit_results (file/db bound), calculate_bic_penalty feature counting (MFL), '
-        'Cook scores / covariance ratios / percentiles / delta method (LAPACK, pandas quantile, sympy diff) — see agents_out/C19.md',
+        'IEEE double arithmetic is modelled only where the code\'s outcome depends on it (numpy vs Python rounding in '
+        '_is_near_target: Model.round53 / np_round, validated against numpy on every run through the near-bound criteria); '
+        'math.log10 is assumed exact enough to give floor(log10|x|) (inputs are not within 1 ulp of a power of ten)',
+        'not covered: calculate_bic_penalty for MFL search spaces (get_penalty_parameters_mfl), summarize_modelfit_results run-time '
+        'columns and the database-bound wrapper, summarize_errors; the statistics of the resampling / diagnostic tools are '
+        'VALIDATION ONLY (c19_stats.py: exact rational recomputation, tolerance 1e-9) — see agents_out/C19.md',
     ]
     ctx.coverage['source_sha'] = source_sha('src/pharmpy/tools/run.py', 'src/pharmpy/modeling/results.py',
                                             'src/pharmpy/modeling/lrt.py', 'src/pharmpy/tools/common.py')
     if not ok:
         return
+    if ctx.tier == 'thorough':
+        from harness.lib.core import COQ, sh
+        rc, out = sh(['coqchk', '-silent', '-o', '-Q', 'theories', 'PV', 'PV.C19.Properties', 'PV.C19.Refuted', 'PV.C19.Examples'],
+                     cwd=COQ, timeout=1800)
+        if rc != 0 or '* Axioms: <none>' not in out:
+            ctx.broken.append('coqchk on PV.C19.{Properties,Refuted,Examples} failed or reports axioms: ' + out[-400:])
+        else:
+            ctx.trusted.append('coqchk (thorough tier) re-checked PV.C19.Properties / Refuted / Examples and their dependencies: no axioms')
+        ctx.log('coqchk done')
     finding_probes(ctx)
+    ctx.log('finding probes done')
     reg = sorted((VERIF / 'regress' / 'C19').glob('*.json'))
     specs = [json.loads(p.read_text()) for p in reg]
     specs = [s['spec'] if 'spec' in s else s for s in specs]
-    n = 420 if ctx.tier == 'quick' else 6000
-    nm = 60 if ctx.tier == 'quick' else 600
+    n = 380 if ctx.tier == 'quick' else 6000
+    nm = 50 if ctx.tier == 'quick' else 600
     specs += [gen_spec(ctx.rng) for _ in range(n)] + [gen_spec(ctx.rng, 'malformed') for _ in range(nm)]
     kept, verdicts, infos, stats = run_specs(ctx, specs, 'gen')
+    ctx.log('generated cases done', stats)
     ctx.coverage['evaluations'] = sum(i['nsub'] for i in infos)
     distinct = {json.dumps(s, sort_keys=True) for s, i in zip(kept, infos) if i['n'] >= 2 and i.get('ranked', 0) >= 1}
     ctx.coverage['distinct_nontrivial'] = len(distinct)
@@ -806,10 +1177,13 @@ def run(ctx):
         'strictness_false': sum(1 for i in infos for s in i['strict'] if s == '(Ok false)'),
         'guard_rse_rebound_false': sum(1 for v in verdicts if 201 in v),
         'guard_grad_nan_rows_false': sum(1 for v in verdicts if 202 in v),
+        'guard_near_round_false': sum(1 for v in verdicts if 204 in v),
         'tool_results': sum(1 for i in infos if 'best' in i),
         'tool_refusals': sum(1 for i in infos if 'tool_err' in i),
     }
     ctx.coverage['samples'] = [{'spec': s, 'tags': v} for s, v in list(zip(kept, verdicts))[:3]]
+    penalty_batch(ctx, 150 if ctx.tier == 'quick' else 2000)
+    summary_batch(ctx, 120 if ctx.tier == 'quick' else 1500)
     try:
         from harness.props import c19_stats
         c19_stats.run(ctx)
@@ -818,6 +1192,11 @@ def run(ctx):
 
 
 def replay(ctx, rep):
+    if 'stats' in rep:
+        from harness.props import c19_stats
+        n, fails = c19_stats.run_one(rep['stats']['part'], rep['stats']['seed'])
+        print('stats', rep['stats'], 'values compared', n, 'failures', fails[:5])
+        return 1 if fails else 0
     spec = rep['spec']
     kept, verdicts, _, _ = run_specs(ctx, [spec], 'replay', quiet=True)
     tags = verdicts[0]
